@@ -17,7 +17,7 @@
      - an alteration confined to the stored (masked) checksum is detected too;
      - the corresponding statements on the checks performed by the log reader
        ([parse_block]) and the table block reader ([read_block]). *)
-From LCDB Require Import Base Crc32c BaseProofs Crc32cProofs.
+From LCDB Require Import Base Crc32c BaseProofs Crc32cProofs LogFormat.
 From Coq Require Import Lia ZifyBool ZifyNat ZifyN.
 Local Open Scope N_scope.
 
@@ -571,3 +571,277 @@ Proof.
   - apply wf_bytes_cons. split; [exact Hp|reflexivity].
   - unfold all_zero. cbn [forallb]. rewrite andb_true_r. apply N.eqb_neq. lia.
 Qed.
+
+(* ------------------------------------------------------------------ *)
+(* 7. The stored (masked) checksum field                               *)
+(* ------------------------------------------------------------------ *)
+
+Lemma le32_sum : forall x c0 c1 c2 c3, x < 4294967296 ->
+  le32 x = [c0; c1; c2; c3] ->
+  c0 + 256 * c1 + 65536 * c2 + 16777216 * c3 = x.
+Proof.
+  intros x c0 c1 c2 c3 Hx H. pose proof (de32_le32 x [] Hx) as Hd.
+  rewrite app_nil_r, H in Hd. cbn [de32] in Hd. injection Hd as Hd. exact Hd.
+Qed.
+
+(* Reading back the stored field of an unaltered record gives the CRC. *)
+Lemma stored_crc_unmask : forall v c0 c1 c2 c3, v < 4294967296 ->
+  le32 (crc_mask v) = [c0; c1; c2; c3] ->
+  crc_unmask (c0 + 256 * c1 + 65536 * c2 + 16777216 * c3) = v.
+Proof.
+  intros v c0 c1 c2 c3 Hv H.
+  rewrite (le32_sum _ _ _ _ _ (crc_mask_bound v) H). apply crc_unmask_mask. exact Hv.
+Qed.
+
+(* Any other four well-formed bytes in the checksum field unmask to a
+   different value: mask/unmask and le32/de32 are bijections. *)
+Lemma stored_crc_altered : forall v c0 c1 c2 c3 c0' c1' c2' c3',
+  le32 (crc_mask v) = [c0; c1; c2; c3] ->
+  c0' < 256 -> c1' < 256 -> c2' < 256 -> c3' < 256 ->
+  [c0'; c1'; c2'; c3'] <> [c0; c1; c2; c3] ->
+  crc_unmask (c0' + 256 * c1' + 65536 * c2' + 16777216 * c3') <> v.
+Proof.
+  intros v c0 c1 c2 c3 c0' c1' c2' c3' H H0 H1 H2 H3 Hne Heq.
+  apply Hne. rewrite <- H, <- Heq.
+  rewrite crc_mask_unmask by lia.
+  symmetry. apply le32_de32; try assumption. reflexivity.
+Qed.
+
+(* ------------------------------------------------------------------ *)
+(* 8. Log records (LogFormat.v)                                        *)
+(* ------------------------------------------------------------------ *)
+
+(* The comparison made by read_physical_record / [parse_block] on a header
+   c0 c1 c2 c3 _ _ ty followed by [payload]. *)
+Definition log_crc_ok (c0 c1 c2 c3 ty : N) (payload : bytes) : bool :=
+  crc_value (ty :: payload) =? crc_unmask (c0 + 256 * c1 + 65536 * c2 + 16777216 * c3).
+
+Lemma phys_record_shape : forall ty payload,
+  phys_record ty payload =
+  le32 (crc_mask (crc_value (ty :: payload))) ++
+  [nlen payload mod 256; nlen payload / 256; ty] ++ payload.
+Proof. intros. unfold phys_record. rewrite crc_value_cons_gen. reflexivity. Qed.
+
+Lemma log_crc_ok_iff : forall ty payload c0 c1 c2 c3 ty' payload',
+  wf_bytes (ty :: payload) = true ->
+  le32 (crc_mask (crc_value (ty :: payload))) = [c0; c1; c2; c3] ->
+  log_crc_ok c0 c1 c2 c3 ty' payload' = true <->
+  crc_value (ty' :: payload') = crc_value (ty :: payload).
+Proof.
+  intros ty payload c0 c1 c2 c3 ty' payload' Hwf Hc. unfold log_crc_ok.
+  rewrite (stored_crc_unmask _ _ _ _ _ (crc_value_bound _ Hwf) Hc).
+  apply N.eqb_eq.
+Qed.
+
+(* Altering the checksummed part [ty :: payload] of a written record by a
+   burst of at most 32 bits (lengths unchanged) makes the reader's check fail. *)
+Theorem log_record_alteration_detected : forall ty payload ty' payload' c0 c1 c2 c3,
+  wf_bytes (ty :: payload) = true -> wf_bytes (ty' :: payload') = true ->
+  length payload' = length payload ->
+  ty' :: payload' <> ty :: payload ->
+  burst_le_32 (xor_bytes (ty' :: payload') (ty :: payload)) ->
+  le32 (crc_mask (crc_extend (crc_value [ty]) payload)) = [c0; c1; c2; c3] ->
+  log_crc_ok c0 c1 c2 c3 ty' payload' = false.
+Proof.
+  intros ty payload ty' payload' c0 c1 c2 c3 Hwf Hwf' Hlen Hne Hb Hc.
+  rewrite crc_value_cons_gen in Hc.
+  destruct (log_crc_ok c0 c1 c2 c3 ty' payload') eqn:E; [|reflexivity].
+  exfalso. apply (log_crc_ok_iff ty payload) in E; [|exact Hwf|exact Hc].
+  revert E. apply crc_detects_burst_diff; try assumption.
+  cbn [length]. f_equal. exact Hlen.
+Qed.
+
+(* One byte (the type byte or any payload byte) overwritten. *)
+Theorem log_record_byte_overwrite_detected :
+  forall ty payload pre b post b' ty' payload' c0 c1 c2 c3,
+  wf_bytes (ty :: payload) = true ->
+  ty :: payload = pre ++ b :: post -> ty' :: payload' = pre ++ b' :: post ->
+  b' < 256 -> b' <> b ->
+  le32 (crc_mask (crc_extend (crc_value [ty]) payload)) = [c0; c1; c2; c3] ->
+  log_crc_ok c0 c1 c2 c3 ty' payload' = false.
+Proof.
+  intros ty payload pre b post b' ty' payload' c0 c1 c2 c3 Hwf E E' Hb' Hne Hc.
+  rewrite crc_value_cons_gen in Hc.
+  destruct (log_crc_ok c0 c1 c2 c3 ty' payload') eqn:Hok; [|reflexivity].
+  exfalso. apply (log_crc_ok_iff ty payload) in Hok; [|exact Hwf|exact Hc].
+  revert Hok. rewrite E, E'.
+  rewrite E in Hwf. apply wf_bytes_app in Hwf. destruct Hwf as [_ Hwf].
+  apply wf_bytes_cons in Hwf. destruct Hwf as [Hb _].
+  apply crc_detects_byte_overwrite; assumption.
+Qed.
+
+(* One bit flipped. *)
+Theorem log_record_bit_flip_detected :
+  forall ty payload pre b post j ty' payload' c0 c1 c2 c3,
+  wf_bytes (ty :: payload) = true ->
+  ty :: payload = pre ++ b :: post ->
+  ty' :: payload' = pre ++ N.lxor b (2 ^ j) :: post -> j < 8 ->
+  le32 (crc_mask (crc_extend (crc_value [ty]) payload)) = [c0; c1; c2; c3] ->
+  log_crc_ok c0 c1 c2 c3 ty' payload' = false.
+Proof.
+  intros ty payload pre b post j ty' payload' c0 c1 c2 c3 Hwf E E' Hj Hc.
+  rewrite crc_value_cons_gen in Hc.
+  destruct (log_crc_ok c0 c1 c2 c3 ty' payload') eqn:Hok; [|reflexivity].
+  exfalso. apply (log_crc_ok_iff ty payload) in Hok; [|exact Hwf|exact Hc].
+  revert Hok. rewrite E, E'. apply crc_detects_bit_flip. exact Hj.
+Qed.
+
+(* Only the four stored checksum bytes altered. *)
+Theorem log_record_crc_field_alteration_detected :
+  forall ty payload c0 c1 c2 c3 c0' c1' c2' c3',
+  wf_bytes (ty :: payload) = true ->
+  le32 (crc_mask (crc_extend (crc_value [ty]) payload)) = [c0; c1; c2; c3] ->
+  c0' < 256 -> c1' < 256 -> c2' < 256 -> c3' < 256 ->
+  [c0'; c1'; c2'; c3'] <> [c0; c1; c2; c3] ->
+  log_crc_ok c0' c1' c2' c3' ty payload = false.
+Proof.
+  intros ty payload c0 c1 c2 c3 c0' c1' c2' c3' Hwf Hc H0 H1 H2 H3 Hne.
+  rewrite crc_value_cons_gen in Hc. unfold log_crc_ok.
+  apply N.eqb_neq. intro Heq. symmetry in Heq. revert Heq.
+  apply (stored_crc_altered _ c0 c1 c2 c3); assumption.
+Qed.
+
+(* The reader: a buffer starting with a header whose check fails yields a
+   bad-record event and no record for it. *)
+Lemma take_n_nlen_app' : forall (s rest : bytes), take_n (nlen s) (s ++ rest) = s.
+Proof.
+  intros s rest. unfold take_n, nlen. rewrite Nat2N.id.
+  rewrite firstn_app, Nat.sub_diag, firstn_all. cbn [firstn]. apply app_nil_r.
+Qed.
+
+Theorem parse_block_crc_mismatch : forall f eof c0 c1 c2 c3 a b ty payload tail,
+  a + 256 * b = nlen payload ->
+  log_crc_ok c0 c1 c2 c3 ty payload = false ->
+  exists r,
+    parse_block (S f) true eof (c0 :: c1 :: c2 :: c3 :: a :: b :: ty :: payload ++ tail)
+    = PBad r :: (if eof then [PEof] else []).
+Proof.
+  intros f eof c0 c1 c2 c3 a b ty payload tail Hlen Hbad.
+  set (buf := c0 :: c1 :: c2 :: c3 :: a :: b :: ty :: payload ++ tail).
+  assert (Hsz : nlen buf = 7 + nlen payload + nlen tail).
+  { unfold buf, nlen. cbn [length]. rewrite app_length. lia. }
+  unfold buf at 1. cbn [parse_block]. fold buf.
+  change HEADER with 7.
+  replace (nlen buf <? 7) with false by lia.
+  cbv zeta.
+  replace (nlen buf <? 7 + (a + 256 * b)) with false by lia.
+  destruct ((ty =? T_ZERO) && (a + 256 * b =? 0)).
+  - eexists. reflexivity.
+  - rewrite Hlen, take_n_nlen_app'.
+    unfold log_crc_ok in Hbad. rewrite Hbad. cbn [negb andb].
+    eexists. reflexivity.
+Qed.
+
+(* Put together: the bytes written by [phys_record ty payload], with the
+   checksummed part altered by a burst of at most 32 bits, are rejected by
+   the reader whatever follows in the block. *)
+Theorem log_reader_rejects_altered_record :
+  forall f eof ty payload ty' payload' c0 c1 c2 c3 a b tail,
+  wf_bytes (ty :: payload) = true -> wf_bytes (ty' :: payload') = true ->
+  length payload' = length payload ->
+  ty' :: payload' <> ty :: payload ->
+  burst_le_32 (xor_bytes (ty' :: payload') (ty :: payload)) ->
+  nlen payload < 65536 ->
+  phys_record ty payload = c0 :: c1 :: c2 :: c3 :: a :: b :: ty :: payload ->
+  exists r,
+    parse_block (S f) true eof (c0 :: c1 :: c2 :: c3 :: a :: b :: ty' :: payload' ++ tail)
+    = PBad r :: (if eof then [PEof] else []).
+Proof.
+  intros f eof ty payload ty' payload' c0 c1 c2 c3 a b tail
+         Hwf Hwf' Hlen Hne Hb Hsz Hrec.
+  unfold phys_record, le32 in Hrec. cbn [app] in Hrec.
+  injection Hrec as E0 E1 E2 E3 Ea Eb.
+  apply parse_block_crc_mismatch.
+  - subst a b. unfold nlen in *. rewrite Hlen. lia.
+  - apply (log_record_alteration_detected ty payload); try assumption.
+    unfold le32. subst c0 c1 c2 c3. reflexivity.
+Qed.
+
+(* ------------------------------------------------------------------ *)
+(* 9. Table blocks: data ++ [type] ++ le32 (masked crc)                *)
+(* ------------------------------------------------------------------ *)
+
+(* The comparison made by ldb_read_block / [read_block] (TableFormat.v) when
+   verification is on; [data_ty] is the block contents followed by the type
+   byte. *)
+Definition table_crc_ok (c0 c1 c2 c3 : N) (data_ty : bytes) : bool :=
+  crc_unmask (c0 + 256 * c1 + 65536 * c2 + 16777216 * c3) =? crc_value data_ty.
+
+Lemma table_crc_ok_iff : forall data ty c0 c1 c2 c3 data_ty',
+  wf_bytes (data ++ [ty]) = true ->
+  le32 (crc_mask (crc_extend (crc_value data) [ty])) = [c0; c1; c2; c3] ->
+  table_crc_ok c0 c1 c2 c3 data_ty' = true <->
+  crc_value data_ty' = crc_value (data ++ [ty]).
+Proof.
+  intros data ty c0 c1 c2 c3 data_ty' Hwf Hc. unfold table_crc_ok.
+  rewrite crc_value_app in Hc.
+  rewrite (stored_crc_unmask _ _ _ _ _ (crc_value_bound _ Hwf) Hc).
+  rewrite N.eqb_eq. split; intro H; symmetry; exact H.
+Qed.
+
+Theorem table_block_alteration_detected : forall data ty data_ty' c0 c1 c2 c3,
+  wf_bytes (data ++ [ty]) = true -> wf_bytes data_ty' = true ->
+  length data_ty' = length (data ++ [ty]) ->
+  data_ty' <> data ++ [ty] ->
+  burst_le_32 (xor_bytes data_ty' (data ++ [ty])) ->
+  le32 (crc_mask (crc_extend (crc_value data) [ty])) = [c0; c1; c2; c3] ->
+  table_crc_ok c0 c1 c2 c3 data_ty' = false.
+Proof.
+  intros data ty data_ty' c0 c1 c2 c3 Hwf Hwf' Hlen Hne Hb Hc.
+  destruct (table_crc_ok c0 c1 c2 c3 data_ty') eqn:E; [|reflexivity].
+  exfalso. apply (table_crc_ok_iff data ty) in E; [|exact Hwf|exact Hc].
+  revert E. apply crc_detects_burst_diff; assumption.
+Qed.
+
+Theorem table_block_byte_overwrite_detected :
+  forall data ty pre b post b' c0 c1 c2 c3,
+  wf_bytes (data ++ [ty]) = true ->
+  data ++ [ty] = pre ++ b :: post -> b' < 256 -> b' <> b ->
+  le32 (crc_mask (crc_extend (crc_value data) [ty])) = [c0; c1; c2; c3] ->
+  table_crc_ok c0 c1 c2 c3 (pre ++ b' :: post) = false.
+Proof.
+  intros data ty pre b post b' c0 c1 c2 c3 Hwf E Hb' Hne Hc.
+  destruct (table_crc_ok c0 c1 c2 c3 (pre ++ b' :: post)) eqn:Hok; [|reflexivity].
+  exfalso. apply (table_crc_ok_iff data ty) in Hok; [|exact Hwf|exact Hc].
+  revert Hok. rewrite E.
+  rewrite E in Hwf. apply wf_bytes_app in Hwf. destruct Hwf as [_ Hwf].
+  apply wf_bytes_cons in Hwf. destruct Hwf as [Hb _].
+  apply crc_detects_byte_overwrite; assumption.
+Qed.
+
+Theorem table_block_bit_flip_detected :
+  forall data ty pre b post j c0 c1 c2 c3,
+  wf_bytes (data ++ [ty]) = true ->
+  data ++ [ty] = pre ++ b :: post -> j < 8 ->
+  le32 (crc_mask (crc_extend (crc_value data) [ty])) = [c0; c1; c2; c3] ->
+  table_crc_ok c0 c1 c2 c3 (pre ++ N.lxor b (2 ^ j) :: post) = false.
+Proof.
+  intros data ty pre b post j c0 c1 c2 c3 Hwf E Hj Hc.
+  destruct (table_crc_ok c0 c1 c2 c3 (pre ++ N.lxor b (2 ^ j) :: post)) eqn:Hok;
+    [|reflexivity].
+  exfalso. apply (table_crc_ok_iff data ty) in Hok; [|exact Hwf|exact Hc].
+  revert Hok. rewrite E. apply crc_detects_bit_flip. exact Hj.
+Qed.
+
+Theorem table_block_crc_field_alteration_detected :
+  forall data ty c0 c1 c2 c3 c0' c1' c2' c3',
+  wf_bytes (data ++ [ty]) = true ->
+  le32 (crc_mask (crc_extend (crc_value data) [ty])) = [c0; c1; c2; c3] ->
+  c0' < 256 -> c1' < 256 -> c2' < 256 -> c3' < 256 ->
+  [c0'; c1'; c2'; c3'] <> [c0; c1; c2; c3] ->
+  table_crc_ok c0' c1' c2' c3' (data ++ [ty]) = false.
+Proof.
+  intros data ty c0 c1 c2 c3 c0' c1' c2' c3' Hwf Hc H0 H1 H2 H3 Hne.
+  rewrite crc_value_app in Hc. unfold table_crc_ok.
+  apply N.eqb_neq. apply (stored_crc_altered _ c0 c1 c2 c3); assumption.
+Qed.
+
+Print Assumptions crc_detects_burst.
+Print Assumptions crc_detects_window.
+Print Assumptions crc_detects_bit_flip.
+Print Assumptions crc_detects_byte_overwrite.
+Print Assumptions window_nonzero.
+Print Assumptions log_reader_rejects_altered_record.
+Print Assumptions log_record_crc_field_alteration_detected.
+Print Assumptions table_block_alteration_detected.
+Print Assumptions table_block_crc_field_alteration_detected.
